@@ -466,6 +466,64 @@ func c20(x *mon.Ctx) {
 		}
 		x.Require(class, n/2, n/4, n)
 	}
+	// the wrapped getter is WHATEVER the caller wrapped — also another RetryHTTPSGetter with settings of its own (a caller shortening
+	// or lengthening somebody else's schedule): the outer one returns the wrapped one's first success and asks nothing behind its back
+	{
+		const class = "retry/wrapped-getter-is-a-retry-getter"
+		n := 0
+		for ci, c := range []struct {
+			endpointFailures        int
+			inTimeout, inCap        time.Duration
+			outTimeout, outCap      time.Duration
+			wantSuccess             bool
+			wantEndpointCallsAtMost int
+		}{
+			{2, 5 * time.Second, time.Millisecond, 300 * time.Millisecond, 0, true, 3},
+			{5, 5 * time.Second, time.Millisecond, 300 * time.Millisecond, 200 * time.Millisecond, true, 6},
+			{0, 5 * time.Second, time.Millisecond, 0, 0, true, 1},
+			{3, 5 * time.Second, 2 * time.Millisecond, time.Nanosecond, time.Millisecond, true, 4},
+			{8, 5 * time.Second, time.Millisecond, 5 * time.Second, 50 * time.Millisecond, true, 9},
+		} {
+			var mu sync.Mutex
+			calls := 0
+			endpoint := getterFunc(func(u string) (map[string][]string, []byte, error) {
+				mu.Lock()
+				defer mu.Unlock()
+				calls++
+				if calls <= c.endpointFailures {
+					return nil, nil, errors.New("scripted: endpoint down")
+				}
+				return map[string][]string{"X": {"y"}}, []byte("the body of the first successful response"), nil
+			})
+			inner := &trust.RetryHTTPSGetter{Timeout: c.inTimeout, MaxRetryDelay: c.inCap, Getter: endpoint}
+			outer := &trust.RetryHTTPSGetter{Timeout: c.outTimeout, MaxRetryDelay: c.outCap, Getter: inner}
+			var h map[string][]string
+			var b []byte
+			var err error
+			pv, _ := mon.Guard(func() { h, b, err = outer.Get("https://example.invalid/nested") })
+			mu.Lock()
+			got := calls
+			mu.Unlock()
+			prob := ""
+			switch {
+			case pv != "":
+				prob = "panic: " + pv
+			case err != nil:
+				prob = fmt.Sprintf("the wrapped getter (a RetryHTTPSGetter with timeout %v, maximum delay %v over an endpoint failing %d times) succeeds at its first call, yet the outer Get (timeout %v, maximum delay %v) returned %v after %d endpoint calls", c.inTimeout, c.inCap, c.endpointFailures, c.outTimeout, c.outCap, err, got)
+			case string(b) != "the body of the first successful response" || !reflect.DeepEqual(h, map[string][]string{"X": {"y"}}):
+				prob = "the returned response differs from the wrapped getter's first successful response"
+			case got > c.wantEndpointCallsAtMost:
+				prob = fmt.Sprintf("%d endpoint calls for %d failures followed by a success", got, c.endpointFailures)
+			}
+			param := fmt.Sprintf("%d/endpoint-fails-%d/inner=%v,%v/outer=%v,%v", ci, c.endpointFailures, c.inTimeout, c.inCap, c.outTimeout, c.outCap)
+			if prob != "" {
+				x.Violation(class, param, prob, "none", param)
+			}
+			x.Note(class, param, err == nil, pv != "", prob == "")
+			n++
+		}
+		x.Require(class, n, 0, n)
+	}
 	// the default getter (the anchor "DefaultHTTPSGetter": 2 min timeout, 30 s maximum delay, the production inner getter) is a
 	// fresh value per call: a caller that tunes the one it was given does not re-configure everybody else's
 	{
@@ -548,3 +606,8 @@ func (u *urlScripted) Get(url string) (map[string][]string, []byte, error) {
 	}
 	return map[string][]string{"X": {k}}, []byte("body of " + k), nil
 }
+
+// getterFunc adapts a function to trust.HTTPSGetter.
+type getterFunc func(string) (map[string][]string, []byte, error)
+
+func (f getterFunc) Get(u string) (map[string][]string, []byte, error) { return f(u) }
